@@ -1273,6 +1273,19 @@ void amount_t::parse_conversion(const string& larger_str,
       comm = &comm->smaller()->commodity();
     }
 
+  // Nor may the chain of ever larger units above `larger' lead back to
+  // `smaller', or unreducing an amount would never end
+  if (smaller.has_commodity())
+    for (const commodity_t * comm = &larger.commodity(); ; ) {
+      if (comm->referent() == smaller.commodity().referent())
+        throw_(amount_error,
+               _f("Commodity %1% cannot be converted into itself")
+               % smaller.commodity().symbol());
+      if (! comm->larger())
+        break;
+      comm = &comm->larger()->commodity();
+    }
+
   larger *= smaller.number();
 
   if (larger.commodity()) {
